@@ -38,7 +38,8 @@ def adapt(run):
             out.append({"ev": "End", "quiescent": bool(ev["quiescent"])})
         if "obs" in ev and k != "end":
             o = ev["obs"]
-            out.append({"ev": "ObsSlot", "slot": (o.get("slot") or [0])[0]})
+            if "slot" in o:                                          # (private state: compared only if readable)
+                out.append({"ev": "ObsSlot", "slot": (o.get("slot") or [0])[0]})
             out.append({"ev": "ObsRc", "rc": o["rc"]})
     return out
 
@@ -102,6 +103,9 @@ def run(tier, seed, mutant=None, only_validate=False):
                 if r.violated != inv:
                     raise core.MachineryError("sensitivity run %s: expected counter-example to %s not found" % (name, inv))
         cfgs = [{"kind": "latest", "cons": [c], "max_elems": ne} for c in ("future", "coro", "sync")]
+        # falsy payloads: elements whose value is None / 0 are elements like any other
+        cfgs += [{"kind": "latest", "cons": ["future"], "max_elems": ne, "falsy": f}
+                 for f in ({"none": 2, "zero": 3}, {"none": ne}, {"zero": 1, "none": 3})]
         amod.node_engine(res, work, node="latest", trace_module="AsyncLatestTrace", cfgs=cfgs,
                          consts_of=lambda c: dict(NE=ne, SyncCons=c["cons"][0] == "sync", Legacy=False, CbOwns=False),
                          adapt=adapt, attribute=attribute, seed=seed, depth=8 if tier == "quick" else 10,
